@@ -497,6 +497,33 @@ func framer(args []string) {
 			run(c, cls+" crc3")
 			getMessage(w, c, cls+" crc3")
 		}
+		// frames whose true CRC has a zero (or all-ones) byte, or two of them, at a chosen place, with the damage
+		// confined to exactly those stored bytes: a comparison that drops leading/trailing zero bytes, compares
+		// numerically after a lossy conversion, or stops at a zero byte accepts them
+		for _, pos := range [][]int{{0}, {1}, {2}, {0, 1}, {1, 2}} {
+			for _, val := range []byte{0x00, 0xff} {
+				if len(pos) == 2 && val == 0xff && !thorough {
+					continue
+				}
+				typ := []int{1005, 1230, 1077, 4072}[(len(pos)+pos[0])%4]
+				f := gen.FrameWithCRCBytesEqual(rng, typ, 6+rng.Intn(12), pos, val)
+				if f == nil {
+					continue
+				}
+				cls := fmt.Sprintf("crc bytes %v = %#x", pos, val)
+				run(gen.Cat(f, gen.Frame(rng, 1005, 19, 0)), cls+" valid")
+				getMessage(w, f, cls+" valid")
+				n := len(f)
+				for k := 0; k < 4; k++ {
+					c := append([]byte{}, f...)
+					for _, p := range pos {
+						c[n-3+p] ^= byte(1 + rng.Intn(255))
+					}
+					run(gen.Cat(c, gen.Frame(rng, 1005, 19, 0)), cls+" damaged there")
+					getMessage(w, c, cls+" damaged there")
+				}
+			}
+		}
 		for i, plen := range gen.Lens(rng, thorough, 6) {
 			typ := gen.TypeClass(rng, i)
 			if gen.IsMSM(typ) && plen < 4 {
